@@ -215,6 +215,22 @@ impl<'a> R<'a> {
     }
 }
 
+/// (audit G1) is the whole input exactly one Type?  (independent of the parser under test)
+pub fn spec_type(src: &str) -> bool {
+    let Some(toks) = tokens(src) else { return false };
+    let mut r = R { t: &toks, i: 0 };
+    r.ty().is_some() && r.i == toks.len()
+}
+
+/// (audit G1) is the whole input exactly one SelectionSet, with or without its outer braces (the federation field-set syntax)?
+pub fn spec_field_set(src: &str) -> bool {
+    let Some(mut toks) = tokens(src) else { return false };
+    if toks.is_empty() { return false; }
+    if toks[0] != Tk::P("{") { toks.insert(0, Tk::P("{")); toks.push(Tk::P("}")); }
+    let mut r = R { t: &toks, i: 0 };
+    r.selection_set().is_some() && r.i == toks.len()
+}
+
 /// Document :: Definition+
 pub fn spec_document(src: &str) -> Option<Vec<(String, Option<String>)>> {
     let toks = tokens(src)?;
